@@ -86,6 +86,32 @@ theorem replace_tokens_spec (hvt : VtLossless vt) (p1 a : Bytes) (rest : List By
   rw [runToks_Rn tk ev sel value vt hvt (valueMarks value) p1 a rest hnd doc h]
   simp [editD, selN, h1, h2]
 
+/-! ### several filters compose in order; the chain model -/
+
+/-- **One filter in its domain (`InDomain`, the four cases above), on the chain model**: when the
+tokenizer sees the serialised document as `tokensOfList vt doc` (`TokAgree`), the chain built by
+`FilterBodyAction::new` and fed the document as one chunk emits the serialisation of the reference
+edit. -/
+theorem filter_spec (lower : String → String) (hvt : VtLossless vt) (doc : List Node) (f : BodyFilter)
+    (hdom : InDomain tk vt doc f) (hag : TokAgree tk vt doc) :
+    (Chain.new noCodec lower [f] [] : Chain Unit Unit).run tk ev noCodec [serializeList doc] =
+      serializeList (editD (decOf ev) doc f) := by
+  obtain ⟨vs, hvs, hch⟩ := chained_of_steps tk ev vt hvt [f] doc
+    ⟨hdom, hag, fun h => absurd rfl h, trivial⟩
+  rw [chain_new_html lower [f] vs hvs]
+  simpa [editAllD] using chain_run_chained tk ev vs _ _ hch
+
+/-- **Several filters compose in order**: if every filter is in its domain on the document it sees
+(the result of the reference edits before it), the chain emits the serialisation of `editAll`
+(`StepsOK`; intermediate documents non-empty, because the chain stops at an empty intermediate result). -/
+theorem filters_compose (lower : String → String) (hvt : VtLossless vt) (doc : List Node)
+    (fs : List BodyFilter) (h : StepsOK tk ev vt doc fs) :
+    (Chain.new noCodec lower fs [] : Chain Unit Unit).run tk ev noCodec [serializeList doc] =
+      serializeList (editAllD (decOf ev) doc fs) := by
+  obtain ⟨vs, hvs, hch⟩ := chained_of_steps tk ev vt hvt fs doc h
+  rw [chain_new_html lower fs vs hvs]
+  exact chain_run_chained tk ev vs _ _ hch
+
 /-! ### the excluded points are real (kernel-checked on the chain model with the tokenizer of C16) -/
 
 /-- `<a><b></b><b></b><b></b></a>` -/
